@@ -27,7 +27,7 @@ EXIT_OK, EXIT_VIOLATION, EXIT_USAGE, EXIT_HARNESS = 0, 1, 2, 3
 class Case:
     def __init__(self, name, fn, tier="quick", timeout=30.0, xmode=False, families=("basic", "mono", "bounds"),
                  ack_uf=False, max_paths=64, expect_exc=(), check_side=False, batch=True, env=None,
-                 encodes=(), bounds="", margin=1e-3, wall=900, decide_timeout=10.0, tactic=None,
+                 encodes=(), bounds="", margin=1e-3, wall=600, decide_timeout=10.0, tactic=None,
                  allow_unreachable=False):
         self.name = name
         self.fn = fn
@@ -114,12 +114,40 @@ def replay_goal(case: Case, values, goal_name):
 
 
 def _solve_goal(case, hyps, goal_term):
+    # cheap first: with every non-linear monomial and special function opaque (a weakening, so `unsat` is sound)
+    r0 = smt.solve(hyps + [tm.not_(goal_term)], timeout_s=min(case.timeout, 5.0), want_model=False, linearize=True)
+    if r0.status == "unsat":
+        return r0
     r = smt.solve(hyps + [tm.not_(goal_term)], timeout_s=case.timeout, families=case.families,
                   ack_uf=case.ack_uf, tactic=case.tactic)
     return r
 
 
+class _WallClock(Exception):
+    pass
+
+
 def run_case(case: Case):
+    import signal
+
+    def _alarm(signum, frame):
+        raise ExplorationBound("case exceeded its wall-clock budget of %ds" % case.wall)
+
+    try:
+        signal.signal(signal.SIGALRM, _alarm)
+        signal.alarm(int(case.wall))
+    except ValueError:
+        pass
+    try:
+        return _run_case(case)
+    finally:
+        try:
+            signal.alarm(0)
+        except ValueError:
+            pass
+
+
+def _run_case(case: Case):
     t0 = time.time()
     out = {"case": case.name, "paths": 0, "goals": [], "errors": [], "unreachable_paths": 0,
            "exceptions": [], "encodes": list(case.encodes), "bounds": case.bounds, "notes": []}
@@ -235,7 +263,7 @@ def _handle_sat(case, hyps, g, r):
         for h in hyps + [g.term]:
             fv |= tm.free_vars(h)
         inputs = [v for v in fv if v.sort == "R" and not v.val.startswith(("@", "$")) and "!" not in v.val]
-        if 0 < len(inputs) <= 40:
+        if 0 < len(inputs) <= 40 and r.n_atoms == 0:
             nice = [tm.eq(tm.floor(tm.scale(v, 64)), tm.scale(v, 64)) for v in inputs]
             r0 = smt.solve(hyps + [margin_negation(g.term, case.margin or 1e-3)] + nice, timeout_s=min(case.timeout, 10.0),
                            families=case.families, ack_uf=case.ack_uf)
@@ -321,7 +349,7 @@ def run_property(prop, modname, tier, meta, jobs=None, only=None):
             asyncs = [(c, pool.apply_async(_worker, ((modname, c.name),))) for c in cases]
             for c, a in asyncs:
                 try:
-                    results.append(a.get(timeout=c.wall))
+                    results.append(a.get(timeout=c.wall + 60))
                 except mp.TimeoutError:
                     results.append({"case": c.name, "paths": 0, "goals": [], "errors": [{"kind": "wall", "msg": "case exceeded %ds" % c.wall}],
                                     "exceptions": [], "wall": c.wall, "solver": {"queries": 0, "time": 0.0}, "unreachable_paths": 0,
